@@ -61,6 +61,11 @@ def kernels(kH, kW, fill):
     # point-symmetric kernel (equal to its 180-degree flip): for an even dimension the centred kernel is NOT symmetric about the origin
     ks = fill.ints((kH, kW), 1, 9).astype(float)
     out["pointsym"] = (ks + ks[::-1, ::-1]) / 16.0
+    if kH == kW and kH >= 2:
+        # equal to its TRANSPOSE but not point-symmetric about the middle tap (outer product of an asymmetric profile with itself)
+        v_ = fill.ints((kH,), 1, 9).astype(float)
+        v_[0] += 3.0
+        out["transsym"] = np.outer(v_, v_) / 64.0
     if kW == 2 or kH == 2:
         # two nearly equal taps: the transfer function almost vanishes at the Nyquist frequency of an even-length axis
         # (invertible blur, cond(A) ~ 2.6e5), zeros elsewhere
@@ -155,7 +160,12 @@ def run_case(case, seed):
                 got = np.unravel_index(np.argmax(np.abs(Y[..., ch])), (H, W))
                 fails.append(fail("impulse->centred_psf", f"tap ({u},{v}) pixel ({i0},{j0}) channel {ch}: response peak at {tuple(int(t) for t in got)}, definition {((i0 + u - kH // 2) % H, (j0 + v - kW // 2) % W)}", **tags))
         for nm, psf in kernels(kH, kW, fill).items():
+          for imgkind in ("generic", "meancentred", "zerosum_exact"):
             X = fill.dyadic((H, W, 4), bits=3, lo=-16, hi=16)
+            if imgkind == "meancentred":  # channel sums cancel to rounding level without being exactly zero
+                X = X * 0.3 - (X * 0.3).mean(axis=(0, 1))
+            elif imgkind == "zerosum_exact" and H * W >= 2:
+                X[-1, -1] = -(X.reshape(-1, 4).sum(axis=0) - X[-1, -1])
             before = (X.tobytes(), psf.tobytes())
             ok, Y = call(q.apply_blur_fft, X, psf)
             evals += 1
